@@ -232,6 +232,21 @@ impl Identity {
     }
 }
 
+#[cfg(feature = "verif_hooks")]
+impl Identity {
+    pub(crate) fn verif_new(ingredient_index: IngredientIndex, hash: u64, disambiguator: u32) -> Self {
+        Identity {
+            ingredient_index,
+            hash,
+            disambiguator: Disambiguator(disambiguator),
+        }
+    }
+
+    pub(crate) fn verif_parts(&self) -> (IngredientIndex, u64, u32) {
+        (self.ingredient_index, self.hash, self.disambiguator.0)
+    }
+}
+
 /// Stores the data that (almost) uniquely identifies a tracked struct.
 ///
 /// This includes the ingredient index of that struct type plus the hash of its untracked
